@@ -140,6 +140,32 @@ Theorem C08_accepted_log_leaves_nothing_pending : forall tr, accepts tr = true -
 Proof. exact accepted_all_settled. Qed.
 Print Assumptions C08_accepted_log_leaves_nothing_pending.
 
+(* ---- a pending registration does not age.  The model has no clock and no deadline: the time a registration
+   waits for the exclusive section is the number of steps the others take meanwhile.  For EVERY list of steps
+   (of any length, of any kind) that does not contain the waiting plugin's own acquire: it is still waiting, and
+   once no block is held and nobody is in the section its registration runs to completion — it is active, and its
+   snapshot is the store of that moment ---- *)
+Theorem C08_pending_registration_does_not_age : forall s l s' p, reachable s ->
+  alookup p (plugs s) = Some PWaitW -> steps s l = Some s' -> ~ In (APAcquire p) l ->
+  alookup p (plugs s') = Some PWaitW /\
+  (readers s' = 0 -> writer s' = false ->
+     exists s'', steps s' [APAcquire p; APSnapshot p; APActivate p; APRelease p] = Some s'' /\
+                 In p (active s'') /\ alookup p (plugs s'') = Some (PDone (store s')) /\
+                 writer s'' = false /\ store s'' = store s').
+Proof. exact pending_registration_ageless. Qed.
+Print Assumptions C08_pending_registration_does_not_age.
+
+(* non-vacuity: a plugin waits while a block is held through three creations by two goroutines *)
+Example C08_example_long_pending : exists s s', reachable s /\ alookup "p" (plugs s) = Some PWaitW /\
+  steps s [AGAcquire "h"; AGBegin "g" "c1"; AGEnd "g"; AGStore "g"; AGRelease "g";
+           AGBegin "h" "c2"; AGEnd "h"; AGStore "h"; AGAcquire "g"; AGBegin "g" "c3"; AGEnd "g"; AGStore "g"; AGRelease "g";
+           AGRelease "h"] = Some s' /\ readers s = 1 /\ readers s' = 0 /\ writer s' = false /\ store s' = ["c3"; "c2"; "c1"].
+Proof.
+  destruct (steps init [AGAcquire "g"; APArrive "p"]) as [s|] eqn:E; [|vm_compute in E; discriminate].
+  exists s. assert (R : reachable s) by (eexists; exact E). vm_compute in E. inversion E; subst s.
+  eexists. split; [exact R|]. split; [reflexivity|]. split; [vm_compute; reflexivity|]. vm_compute. auto.
+Qed.
+
 (* ---- closed instances and re-registration under the same name.  Plugin ids are INSTANCES; name_of p is the
    name the code knows the instance by; [listed s] = r.plugins = the live instances and the closed ones that
    no clean-up has dropped yet ---- *)
